@@ -317,8 +317,8 @@ func writeManifest(root string) {
 		PropertyID string `json:"property_id"`
 		Reason     string `json:"reason"`
 	}
-	var checks []check
-	var nas []na
+	checks := []check{}
+	nas := []na{}
 	var served []string
 	for _, id := range allProps {
 		pr := rules.Get(id)
